@@ -21,14 +21,26 @@ def lit(v):
     return "NULL" if v == N else str(v)
 
 
+def text_of(v):
+    """column s is the TEXT image of column b under an order-preserving encoding: 0 -> 'a', 1 -> 'b', ..."""
+    return None if v == N else chr(ord("a") + v)
+
+
+def code_of(s):
+    """inverse of text_of for observed values; anything else is returned unchanged"""
+    if isinstance(s, str) and len(s) == 1 and "a" <= s <= "z":
+        return ord(s) - ord("a")
+    return s
+
+
 def setup_sql(indexed=False):
     """DDL + INSERTs. indexed=True adds a secondary index on column a of every table (same names, so the same SQL
-    text runs against the indexed copy)."""
+    text runs against the indexed copy). Every table has a fourth column s TEXT = text_of(b) (used by C16)."""
     out = []
     for t, rows in TABLES.items():
-        out.append("CREATE TABLE %s (id INT PRIMARY KEY, a INT, b INT)" % t)
+        out.append("CREATE TABLE %s (id INT PRIMARY KEY, a INT, b INT, s TEXT)" % t)
         for r in rows:
-            out.append("INSERT INTO %s VALUES (%s)" % (t, ", ".join(lit(v) for v in r)))
+            out.append("INSERT INTO %s VALUES (%s, %s)" % (t, ", ".join(lit(v) for v in r), "NULL" if r[2] == N else "'%s'" % text_of(r[2])))
         if indexed:
             out.append("CREATE INDEX ix_%s_a ON %s (a)" % (t, t))
     out.append("CREATE TABLE w (id INT PRIMARY KEY, a INT)")
